@@ -266,7 +266,7 @@ Proof.
   destruct (a64_db_target i' 0) as (Hl & _). rewrite Hl. f_equal. unfold i'. rewrite set_imm_disp. symmetry. exact Hoff.
 Qed.
 
-(* the hypotheses are satisfiable, and for concrete operands the instruction-level function of C02's model (first admissible row of
+(* the hypotheses are satisfiable, and for concrete operands the instruction-level function of C02's model (first accepting row of
    the mnemonic) gives the same row and word: `cbz x5, <pc + 1 MiB - 4>` *)
 Example a64_db_patched_witness :
   let i := ICb true false 5 0 in
@@ -275,4 +275,113 @@ Example a64_db_patched_witness :
   spec_rows rows (a64_mn i) [OGp true 5; ORel 1048572] = Some (a64_rid i, Z.lor (a64_enc (set_imm i 0)) 8388576).
 Proof.
   cbv zeta. split; [vm_compute; repeat split; discriminate|]. split; [exact I|]. repeat split; vm_compute; reflexivity.
+Qed.
+
+(* ------------------------------------------------------------------ instruction level: C02's `spec_rows` (first accepting row of the mnemonic) *)
+(* a necessary condition for a row's syntaxes to accept an operand list, decidable on the constructors alone (first two positions) *)
+Definition shape1 (s : opsyn) (o : operand) : bool :=
+  match s, o with
+  | SGp x _ _, OGp x' _ => Bool.eqb x x'
+  | SGp _ _ _, _ => false
+  | SVec rt et _ _, OVec rt' et' _ _ => (rt' =? rt) && (et' =? et)
+  | SVec _ _ _ _, _ => false
+  | (SImmU _ _ _ | SCond _ _), OImm _ _ => true
+  | (SImmU _ _ _ | SCond _ _), _ => false
+  | (SMemOff _ _ _ _ _ _ | SMemIdx _ _ _ _ _), OMem _ _ _ _ _ _ => true
+  | (SMemOff _ _ _ _ _ _ | SMemIdx _ _ _ _ _), _ => false
+  | SMemLit _ _, OLit _ => true
+  | SMemLit _ _, _ => false
+  | SRel _ _ _, ORel _ => true
+  | SRel _ _ _, _ => false
+  | _, _ => true
+  end.
+Definition consumes_one (s : opsyn) : bool :=
+  match s with SGp _ _ _ | SVec _ _ _ _ | SImmU _ _ _ | SCond _ _ => true | _ => false end.
+Definition shape_ok (ss : list opsyn) (ops : list operand) : bool :=
+  match ss, ops with
+  | s1 :: sr, o1 :: r =>
+      shape1 s1 o1 && (if consumes_one s1 then match sr, r with s2 :: _, o2 :: _ => shape1 s2 o2 | _, _ => true end else true)
+  | _, _ => true
+  end.
+
+Lemma shape1_nec s o r e rest : bind1 s (o :: r) = Some (e, rest) -> shape1 s o = true.
+Proof.
+  destruct s; destruct o; cbv beta iota delta [shape1]; try reflexivity; cbv beta iota delta [bind1]; try discriminate.
+  - destruct (Bool.eqb x x0); [reflexivity|]. cbn [andb]. discriminate.
+  - destruct ((rt0 =? rt) && (et0 =? et)) eqn:E; [reflexivity|].
+    destruct (rt0 =? rt); [|cbn [andb]; discriminate]. destruct (et0 =? et); [discriminate E|]. cbn [andb]. discriminate.
+Qed.
+
+Lemma consumes_one_rest s o r e rest : consumes_one s = true -> bind1 s (o :: r) = Some (e, rest) -> rest = r.
+Proof.
+  destruct s; cbv beta iota delta [consumes_one]; try discriminate; intros _; destruct o; cbv beta iota delta [bind1]; try discriminate;
+    repeat match goal with |- (if ?c then _ else _) = _ -> _ => destruct c end; intros H; try discriminate H; inversion H; reflexivity.
+Qed.
+
+Lemma bind_shape ss ops e : bind ss ops = Some e -> shape_ok ss ops = true.
+Proof.
+  destruct ss as [|s1 sr]; [reflexivity|]. destruct ops as [|o1 r]; [reflexivity|]. cbn [bind shape_ok].
+  destruct (bind1 s1 (o1 :: r)) as [[e1 rest]|] eqn:E1; [|discriminate].
+  rewrite (shape1_nec _ _ _ _ _ E1). cbn [andb].
+  destruct (consumes_one s1) eqn:C; [|reflexivity]. rewrite (consumes_one_rest _ _ _ _ _ C E1).
+  destruct sr as [|s2 sr2]; [reflexivity|]. destruct r as [|o2 r2]; [reflexivity|]. cbn [bind].
+  destruct (bind1 s2 (o2 :: r2)) as [[e2 rest2]|] eqn:E2; [|discriminate]. intros _. exact (shape1_nec _ _ _ _ _ E2).
+Qed.
+
+(* the first row of the mnemonic whose shape accepts the operands *)
+Fixpoint first_shape (db : list row) (mn : Z) (ops : list operand) : option row :=
+  match db with
+  | [] => None
+  | r :: rest => if (r_mn r =? mn) && shape_ok (r_ops r) ops then Some r else first_shape rest mn ops
+  end.
+
+Lemma spec_rows_first db mn ops r w : first_shape db mn ops = Some r -> spec_row r ops = Some w -> spec_rows db mn ops = Some (r_id r, w).
+Proof.
+  induction db as [|r0 rest IH]; cbn [first_shape spec_rows]; [discriminate|]. intros H Hs.
+  destruct (r_mn r0 =? mn) eqn:Em; cbn [andb] in H.
+  - destruct (shape_ok (r_ops r0) ops) eqn:Eh.
+    + injection H as ->. rewrite Hs. reflexivity.
+    + assert (spec_row r0 ops = None) as ->; [|exact (IH H Hs)].
+      unfold spec_row. destruct (bind (r_ops r0) ops) as [e|] eqn:Eb; [|reflexivity].
+      rewrite (bind_shape _ _ _ Eb) in Eh. discriminate.
+  - exact (IH H Hs).
+Qed.
+
+Lemma a64_first_shape i : 0 <= (match i with ILdrLit opc _ _ _ => opc | _ => 0 end) < 4 -> a64_db_ok i ->
+  first_shape rows (a64_mn i) (a64_ops i) = row_by_id (a64_rid i).
+Proof.
+  intros Ho Hok.
+  destruct i as [link imm|c imm|sf nz rt imm|b5 nz b40 rt imm|page rd imm|opc v rt imm]; cbn [a64_db_ok] in Hok.
+  - destruct link; vm_compute; reflexivity.
+  - vm_compute; reflexivity.
+  - destruct sf, nz; vm_compute; reflexivity.
+  - destruct b5, nz; vm_compute; reflexivity.
+  - destruct page; vm_compute; reflexivity.
+  - assert (Hopc : opc = 0 \/ opc = 1 \/ opc = 2 \/ opc = 3) by lia.
+    destruct v; [destruct Hopc as [-> | [-> | [-> | ->]]]; [| | |exfalso; apply Hok; reflexivity] | destruct Hopc as [-> | [-> | [-> | ->]]]];
+      vm_compute; reflexivity.
+Qed.
+
+(* C02's instruction-level model: the FIRST row of the mnemonic that accepts the operands is that row, and the word is a64_enc i *)
+Theorem a64_db_spec_rows i : a64_wf i -> a64_db_ok i -> spec_rows rows (a64_mn i) (a64_ops i) = Some (a64_rid i, a64_enc i).
+Proof.
+  intros Hwf Hok. destruct (a64_db_row i Hwf Hok) as (r & Hr & Hmn & Hs).
+  destruct (row_by_id_in _ _ Hr) as (_ & Hid). rewrite <- Hid.
+  apply spec_rows_first; [|exact Hs]. rewrite a64_first_shape; [exact Hr| |exact Hok].
+  destruct i; cbn [a64_wf] in Hwf; lia.
+Qed.
+
+(* ... and the word at a resolved reference is what C02's instruction-level model emits for the displacement operand `off` *)
+Theorem a64_db_patched_spec_rows i off m :
+  a64_wf (set_imm i 0) -> a64_db_ok i -> hole_ok (kind_of i) (a64_enc (set_imm i 0)) = true -> int64 off ->
+  encode_offset (fmt_of_kind (kind_of i)) off = Some m ->
+  let i' := set_imm i (off / 2 ^ discard (fmt_of_kind (kind_of i))) in
+  spec_rows rows (a64_mn i) (a64_ops i') = Some (a64_rid i, Z.lor (a64_enc (set_imm i 0)) m) /\
+  disp_of (last (a64_ops i') (OImm 0 0)) = Some off.
+Proof.
+  intros Hwf Hok Hh Hi He i'.
+  destruct (a64_patched_word i off m Hwf Hh Hi He) as (Ew & Hwfv & Hoff). fold i' in Ew, Hwfv.
+  destruct (set_imm_ids i (off / 2 ^ discard (fmt_of_kind (kind_of i)))) as (E1 & E2 & E3). fold i' in E1, E2, E3.
+  rewrite Ew, <- E1, <- E2. split; [apply a64_db_spec_rows; [exact Hwfv|exact (proj2 E3 Hok)]|].
+  destruct (a64_db_target i' 0) as (Hl & _). rewrite Hl. f_equal. unfold i'. rewrite set_imm_disp. symmetry. exact Hoff.
 Qed.
